@@ -22,6 +22,8 @@ def specs(tier):
         J('steady3-boom:S2H1', 'steady', dict(n=3, methods=('boom',)), dict(S=2, H=1), dict(k=0)),
         J('steady2+1obs:S2H1', 'steady', dict(n=2, observers=1, methods=('boom',)), dict(S=2, H=1), dict(k=0)),
         J('steady2-boom-reelect:E1H1S1', 'steady', dict(n=2, methods=('boom',)), dict(E=1, H=1, S=1), dict(k=0)),
+        J('forwarded3-boom:E1H1', 'forwarded', dict(n=3, methods=('boom',)), dict(E=1, H=1), dict(meth='boom')),
+        J('forwarded-acked3-boom:S1H1', 'forwarded_acked', dict(n=3, methods=('boom',)), dict(S=1, H=1), dict(meth='boom')),
         J('steady2-nobatch:S2H1', 'steady', dict(n=2, methods=('boom', 'boom0'), batch=False), dict(S=2, H=1), dict(k=0)),
     ]
     if not q:
